@@ -376,6 +376,8 @@ func (g *Gen) Next() Step {
 			}
 			g.noteDetach(c, st)
 			return st
+		case "probe.removed":
+			return Step{Op: op, Pos: r.U64() % 1024}
 		case "failstor":
 			c := g.pickTarget(false, true)
 			if c == nil {
